@@ -699,7 +699,7 @@ fn value_text(v: &Sx) -> Option<String> {
     }
 }
 
-/// (id|-1 ((set key value) ...) target sub)
+/// (id|-1 ((set key value) ...) target sub off)
 pub fn add_text(x: &Sx) -> Option<String> {
     let sub = q_of(x.nth(3));
     let mut s = String::from("ADD ANNOTATION ?new WITH");
@@ -709,7 +709,20 @@ pub fn add_text(x: &Sx) -> Option<String> {
     for d in x.nth(1).list() {
         s.push_str(&format!(" DATA \"{}\" \"{}\" {};", sid(d.nth(0).int()), kid(d.nth(1).int()), value_text(d.nth(2))?));
     }
-    s.push_str(&format!(" TARGET ?{};", vname(x.nth(2).int())));
+    let cur = |c: &Sx| -> String {
+        if c.nth(0).int() == 0 {
+            format!("{}", c.nth(1).int())
+        } else if c.nth(1).int() == 0 {
+            "-0".to_string()
+        } else {
+            format!("{}", c.nth(1).int())
+        }
+    };
+    if x.nth(4).list().len() == 2 {
+        s.push_str(&format!(" TARGET ?{} OFFSET {} {};", vname(x.nth(2).int()), cur(x.nth(4).nth(0)), cur(x.nth(4).nth(1))));
+    } else {
+        s.push_str(&format!(" TARGET ?{};", vname(x.nth(2).int())));
+    }
     s.push_str(" { ");
     s.push_str(&q_text(&sub)?);
     s.push_str(" }");
@@ -734,8 +747,36 @@ fn mut_outcome(store: &mut AnnotationStore, text: &'static str) -> i64 {
     r.unwrap_or(-1)
 }
 
-fn selector_of(it: &QueryResultItem) -> Option<SelectorBuilder<'static>> {
+/// the position a cursor relative to a text of the given length denotes
+fn rel(c: &Sx, len: usize) -> Option<usize> {
+    let v = c.nth(1).int();
+    if c.nth(0).int() == 0 {
+        Some(v as usize)
+    } else if v > 0 || (-v) as usize > len {
+        None
+    } else {
+        Some(len - (-v) as usize)
+    }
+}
+
+/// the target of the direct annotate() call; off = the OFFSET of the ADD query: relative to a text
+/// selection (worked out here, by hand), handed on for an annotation, ignored for the rest
+fn selector_of(it: &QueryResultItem, off: &Sx) -> Option<SelectorBuilder<'static>> {
+    let has_off = off.list().len() == 2;
     Some(match it {
+        QueryResultItem::Annotation(x) if has_off => SelectorBuilder::AnnotationSelector(
+            BuildItem::Handle(x.handle()),
+            Some(Offset::new(crate::storegen::cursor(off.nth(0)), crate::storegen::cursor(off.nth(1)))),
+        ),
+        QueryResultItem::TextSelection(x) if has_off => {
+            let len = x.end() - x.begin();
+            let b = rel(off.nth(0), len)?;
+            let e = rel(off.nth(1), len)?;
+            if b > len || e > len || b > e {
+                return None;
+            }
+            SelectorBuilder::TextSelector(BuildItem::Handle(x.resource().handle()), Offset::simple(x.begin() + b, x.begin() + e))
+        }
         QueryResultItem::Annotation(x) => SelectorBuilder::AnnotationSelector(BuildItem::Handle(x.handle()), None),
         QueryResultItem::TextSelection(x) => SelectorBuilder::TextSelector(BuildItem::Handle(x.resource().handle()), Offset::simple(x.begin(), x.end())),
         QueryResultItem::TextResource(x) => SelectorBuilder::ResourceSelector(BuildItem::Handle(x.handle())),
@@ -762,7 +803,7 @@ pub fn exec_add(a_store: &mut AnnotationStore, b_store: &mut AnnotationStore, x:
         let targets: Option<Vec<SelectorBuilder<'static>>> = {
             match b_store.query(q_prog(&sub)) {
                 Err(_) => None,
-                Ok(iter) => iter.map(|row| row.get_by_name(target).ok().and_then(selector_of)).collect(),
+                Ok(iter) => iter.map(|row| row.get_by_name(target).ok().and_then(|it| selector_of(it, x.nth(4)))).collect(),
             }
         };
         let mut code = 1;
@@ -820,21 +861,27 @@ pub fn exec_delete(a_store: &mut AnnotationStore, b_store: &mut AnnotationStore,
     }
     let name = leak(vname(v));
     let second = guard(|| {
-        let handles: Vec<AnnotationHandle> = {
+        // every row must bind the variable to an annotation; otherwise nothing is removed
+        let handles: Option<Vec<AnnotationHandle>> = {
             match b_store.query(q_prog(sub)) {
-                Err(_) => vec![],
+                Err(_) => None,
                 Ok(iter) => iter
-                    .filter_map(|row| match row.get_by_name(name) {
+                    .map(|row| match row.get_by_name(name) {
                         Ok(QueryResultItem::Annotation(x)) => Some(x.handle()),
                         _ => None,
                     })
                     .collect(),
             }
         };
-        for h in handles {
-            let _ = b_store.remove_annotation(h);
+        match handles {
+            None => l(vec![a(0), state_sx(b_store)]),
+            Some(handles) => {
+                for h in handles {
+                    let _ = b_store.remove_annotation(h);
+                }
+                l(vec![a(1), state_sx(b_store)])
+            }
         }
-        l(vec![a(1), state_sx(b_store)])
     })
     .unwrap_or_else(|| l(vec![a(-1)]));
     vec![first, second]
@@ -892,10 +939,33 @@ pub fn gen_dop(rng: &mut Rng) -> Sx {
     }
 }
 
-/// the text of positions b..e of a resource of the harness
+const ALPHA: [i64; 9] = [97, 233, 32, 28450, 66, 128512, 99, 201, 98];
+
+/// the text of positions b..e of a resource of the C08 harness: 'a' 'é' ' ' '漢' 'B' '😀' 'c' 'É' 'b' repeated
 pub fn text_cps(b: usize, e: usize) -> Vec<i64> {
-    const ALPHA: [i64; 7] = [97, 233, 32, 28450, 98, 128512, 99];
-    (b..e).map(|i| ALPHA[i % 7]).collect()
+    (b..e).map(|i| ALPHA[i % ALPHA.len()]).collect()
+}
+
+/// apply one operation of a history; a resource gets the C08 text of its length (the store model
+/// only knows the length), everything else is crate::storegen::apply
+pub fn apply_c08(store: &mut AnnotationStore, op: &Sx) {
+    if op.nth(0).int() == 0 {
+        let text: String = text_cps(0, op.nth(2).int() as usize).iter().filter_map(|c| char::from_u32(*c as u32)).collect();
+        let b = TextResourceBuilder::new().with_id(rid(op.nth(1).int())).with_text(text);
+        let _ = guard(|| store.add_resource(b));
+    } else {
+        let _ = crate::storegen::apply(store, op);
+    }
+}
+
+fn flip_case(c: i64) -> i64 {
+    match c {
+        97..=122 => c - 32,
+        65..=90 => c + 32,
+        233 => 201,
+        201 => 233,
+        _ => c,
+    }
 }
 
 pub struct Outer {
@@ -952,11 +1022,12 @@ fn gen_simple(rng: &mut Rng, rt: i64, outer: &[Outer], cfg: &QCfg) -> Cst {
                                 let e = b + rng.below(4);
                                 let nocase = rng.chance(1, 3);
                                 let mut t = if !cfg.pool.is_empty() && rng.chance(3, 4) { rng.pick(&cfg.pool).clone() } else { text_cps(b, e) };
-                                if nocase && rng.chance(1, 2) {
-                                    // NOCASE with capitals in the literal
+                                if nocase && rng.chance(2, 3) {
+                                    // NOCASE: the literal in another case than the text (ASCII and non-ASCII letters)
+                                    let all = rng.chance(1, 2);
                                     for c in t.iter_mut() {
-                                        if (97..=122).contains(c) {
-                                            *c -= 32;
+                                        if all || rng.chance(1, 2) {
+                                            *c = flip_case(*c);
                                         }
                                     }
                                 }
@@ -1010,7 +1081,17 @@ fn gen_simple(rng: &mut Rng, rt: i64, outer: &[Outer], cfg: &QCfg) -> Cst {
                 7 => pick_var(rng, outer, 1).map(|v| Cst::DataVar(v, false)),
                 8 => pick_var(rng, outer, 5).map(Cst::TextVar).or_else(|| {
                     if !cfg.pool.is_empty() {
-                        Some(Cst::Text(rng.pick(&cfg.pool).clone(), rng.chance(1, 3)))
+                        let nocase = rng.chance(1, 2);
+                        let mut t = rng.pick(&cfg.pool).clone();
+                        if nocase {
+                            let all = rng.chance(1, 2);
+                            for c in t.iter_mut() {
+                                if all || rng.chance(1, 2) {
+                                    *c = flip_case(*c);
+                                }
+                            }
+                        }
+                        Some(Cst::Text(t, nocase))
                     } else {
                         None
                     }
